@@ -132,8 +132,12 @@ class time_limit:
         signal.signal(signal.SIGPROF, self.old)
 
 
-def run_call(fn_obj, fn_ir, recipe, glb, script=None):
-    """Call the function (or drive the generator) and return the outcome record."""
+def run_call(fn_obj, fn_ir, recipe, glb, script=None, leave=None, leave_at=0):
+    """Call the function (or drive the generator) and return the outcome record.
+
+    `leave`, if given, is called just before script step number `leave_at` of a generator (0 =
+    after the generator object was created and before it is first advanced): used to end a
+    probe / overlay while instrumented generator frames are still alive."""
     args, kwargs, watch = PG.build_args(fn_ir, recipe, glb)
     out = {"steps": []}
     try:
@@ -146,14 +150,14 @@ def run_call(fn_obj, fn_ir, recipe, glb, script=None):
         res = None
     else:
         if fn_ir["gen"]:
-            out["result"] = drive(res, script or [("next",)] * 3, out)
+            out["result"] = drive(res, script or [("next",)] * 3, out, leave, leave_at)
             res = None
         else:
             out["result"] = ("ret", nrepr(res))
             out["ret_obj"] = res
     out["log"] = list(glb["LOG"])
     out["watch"] = {k: nrepr(v) for k, v in watch.items()}
-    out["globals"] = {k: nrepr(glb.get(k)) for k in ("G1", "G2")}
+    out["globals"] = {k: nrepr(glb.get(k)) for k in ("G1", "G2", "GN")}
     if "get_cl" in glb:
         try:
             out["globals"]["<closure>"] = nrepr(glb["get_cl"]())
@@ -162,10 +166,12 @@ def run_call(fn_obj, fn_ir, recipe, glb, script=None):
     return out
 
 
-def drive(g, script, out):
+def drive(g, script, out, leave=None, leave_at=0):
     """Drive generator `g`; records each step in out['steps']; returns final status."""
     Boom = None
-    for op in script:
+    for i, op in enumerate(script):
+        if leave is not None and i == leave_at:
+            leave()
         try:
             if op[0] == "next":
                 v = next(g)
